@@ -62,9 +62,20 @@ class Prop:
 
     # ---- convenience: evaluate one case end-to-end (used by shrinker / replay)
     def evaluate(self, case):
-        io = self.impl(case)
+        io = self.impl(fresh(case))
         mo = core.run_driver([self.request(case, io)])[0]
         return io, mo, self.judge(case, io, mo)
+
+
+def fresh(case):
+    """The implementation is always driven with a JSON round trip of the case: every string it receives (action types,
+    cards, variant names) is then a new object, equal to but not identical with the library's own constants and with the
+    strings already held inside its game objects -- as they are when moves arrive from a client, a file or a database.
+    Code that compares strings by identity instead of equality behaves differently on such input."""
+    try:
+        return json.loads(json.dumps(case))
+    except (TypeError, ValueError):
+        return case
 
 
 def _shorten(x, depth=0):
@@ -100,7 +111,7 @@ def run_shard(args):
         t_end = time.time() + seconds
 
         def process(cases):
-            ios = [prop.impl(c) for c in cases]
+            ios = [prop.impl(fresh(c)) for c in cases]
             mos = core.run_driver([prop.request(c, io) for c, io in zip(cases, ios)])
             for c, io, mo in zip(cases, ios, mos):
                 v = prop.judge(c, io, mo)
